@@ -56,8 +56,34 @@ Section Decide.
     | first :: others => a2p_loop ss s first others []
     end.
   Definition decide (ss : list dsample) : list (option (list (Z * G))) := map (a2p_sample ss) ss.
+
+  (* ---- NOT the code of /repo: a variant that trusts a station pair only when it is seen together in at least nmin
+          samples (e.g. nmin = ceil(0.05 * number of samples)) and drops a sample whose pair has no trusted position *)
+  Definition expected_thr (nmin : nat) (ss : list dsample) (i j : Z) : option P :=
+    let pl := pair_lists ss i j in if (length pl <? nmin)%nat then None else Some (voted pl).
+  Fixpoint a2p_loop_thr (nmin : nat) (ss : list dsample) (s : dsample) (first : Z) (others : list Z)
+           (poses : list (Z * G)) : option (list (Z * G)) :=
+    match others with
+    | [] => Some poses
+    | o :: tl =>
+        match expected_thr nmin ss first o with
+        | None => None
+        | Some e =>
+            let r := choose e (sols_of s first) (sols_of s o) in
+            if fst r then a2p_loop_thr nmin ss s first tl (dict_set o (snd (snd r)) (dict_set first (fst (snd r)) poses))
+            else None
+        end
+    end.
+  Definition a2p_sample_thr (nmin : nat) (ss : list dsample) (s : dsample) : option (list (Z * G)) :=
+    match sort_ids (keys s) with
+    | [] => Some []
+    | first :: others => a2p_loop_thr nmin ss s first others []
+    end.
+  Definition decide_thr (nmin : nat) (ss : list dsample) : list (option (list (Z * G))) :=
+    map (a2p_sample_thr nmin ss) ss.
 End Decide.
 
 (* ---- instances *)
 (* positions on a line in centimetres, integer distances *)
 Definition dist_cm (a b : Z) : Z := Z.abs (a - b).
+Definition mean_cm (l : list Z) : Z := fold_right Z.add 0 l / Z.of_nat (length l).
